@@ -40,13 +40,20 @@ class LedgerArray:
         key = key if isinstance(key, tuple) else (key,)
         ext = tuple(k.stop - k.start for k in key)
         n = anp._prod(ext) * anp._itemsize(self.dtype)
-        anp.LEDGER.transient(n * self.copies.read, f"read-copies {self.name}")
         import numpy as np
 
+        # the decoded chunk and the buffer(s) it was decoded from coexist while the chunk is being read (the memory model's
+        # "input x (1 + read copies)"), so the block is allocated BEFORE the transient copies are released
         dt = np.dtype(self.dtype)
         if dt.fields:  # a structured array is stored as a group of per-field arrays and read as a dict of blocks (ZarrV3ArrayGroup.__getitem__)
-            return {f: Block(ext, dt.fields[f][0]) for f in dt.fields}
-        return Block(ext, self.dtype)
+            out = {}
+            for f in dt.fields:
+                out[f] = Block(ext, dt.fields[f][0])
+                anp.LEDGER.transient(anp._prod(ext) * anp._itemsize(dt.fields[f][0]) * self.copies.read, f"read-copies {self.name}.{f}")
+            return out
+        b = Block(ext, self.dtype)
+        anp.LEDGER.transient(n * self.copies.read, f"read-copies {self.name}")
+        return b
 
     def __setitem__(self, key, value):
         n = anp._prod(value.shape) * anp._itemsize(value.dtype)
@@ -291,13 +298,29 @@ def obligations(tier):
                      bounds=f"x[::step] with n <= {4*N}, chunks <= {N+3}, step 2..3: selection + merge_chunks (fused when optimize=1), every block",
                      stubs=["anp Ledger"], witness_rule=lambda m: m["n"] >= 2 * m["c"], public_replay=replay_strided_selection if opt else None))
 
-    _, vs = c01.EXTRA_SCENARIOS["reduce[axis0-2d,widening]"]
-    for opt in (0, 1):
-        o.append(Obl(f"ledger[reduce[axis0-2d,widening],optimize={opt}]", (lambda opt: lambda **kw: ledger_bound("reduce[axis0-2d,widening]", opt, **kw))(opt),
-                     vs(N) + [("blk0", 0, 4), ("blk1", 0, N)], allowed=c01.ALLOWED + (AssertionError,), setup=c01.setup, functions=fns, wall_s=wall,
-                     bounds=f"sum of int32 / int8, mean and var of float32 over axis 0 of an (n<=4, m<={N}) array with chunks (1..2, 1..{N}) (skinny along the reduced axis); "
-                            "one task of every op at a symbolic block coordinate",
-                     outside="LAPACK buffers, codec internals, interpreter overhead", stubs=["anp Ledger"], witness_rule=lambda m: m["n"] >= 2 and m["c2"] >= 2))
+    for nm, opts in (("add[astype-int8]", (0, 1)), ("roll", (1,)), ("argmax", (0, 1)), ("flip", (1,)), ("stack", (1,)), ("negative", (1,))):
+        _, vs = c01.SCENARIOS[nm] if nm in c01.SCENARIOS else c01.EXTRA_SCENARIOS[nm]
+        for opt in opts:
+            o.append(Obl(f"ledger[{nm},optimize={opt}]", (lambda nm, opt: lambda **kw: ledger_bound(nm, opt, **kw))(nm, opt), vs(N) + [("blk0", 0, N + 6), ("blk1", 0, 3)],
+                         allowed=c01.ALLOWED + (AssertionError,), setup=c01.setup, functions=fns, wall_s=wall,
+                         bounds=f"as C01, sizes <= {N}; one task of every op (fused ops when optimize=1) at a symbolic block coordinate; read/write copies 1/1",
+                         outside="LAPACK buffers, codec internals, interpreter overhead", stubs=["anp Ledger", "LedgerArray reads/writes"],
+                         witness_rule=lambda m: m.get("n", m.get("n1", 0)) >= 2))
+    for nm in ("var-float32[1d]", "var-float64[1d]", "mean-float32[1d]", "sum-int8[1d]"):
+        _, vs = c01.EXTRA_SCENARIOS[nm]
+        o.append(Obl(f"ledger[{nm},optimize=0]", (lambda nm: lambda **kw: ledger_bound(nm, 0, **kw))(nm), vs(N) + [("blk0", 0, 48), ("blk1", 0, 0)],
+                     allowed=c01.ALLOWED + (AssertionError,), setup=c01.setup, functions=fns, wall_s=wall,
+                     bounds="1-d array of up to 48 elements in chunks of up to 24: the block function's temporaries against the projection; every task of every op",
+                     outside="LAPACK buffers, codec internals, interpreter overhead", stubs=["anp Ledger"], witness_rule=lambda m: m["n"] >= 2 * m["c"]))
+    for kind in c01._REDUCE_KINDS:
+        nm = f"{kind}[axis0-2d]"
+        _, vs = c01.EXTRA_SCENARIOS[nm]
+        for opt in (0, 1):
+            o.append(Obl(f"ledger[{nm},optimize={opt}]", (lambda nm, opt: lambda **kw: ledger_bound(nm, opt, **kw))(nm, opt),
+                         vs(N) + [("blk0", 0, 4), ("blk1", 0, N)], allowed=c01.ALLOWED + (AssertionError,), setup=c01.setup, functions=fns, wall_s=wall,
+                         bounds=f"{kind.replace('-', ' of ')} over axis 0 of an (n<=4, m<={N}) array with chunks (1..2, 1..{N}) (skinny along the reduced axis); "
+                                "one task of every op at a symbolic block coordinate; NumPy dtype promotion and temporary elision modelled",
+                         outside="LAPACK buffers, codec internals, interpreter overhead", stubs=["anp Ledger"], witness_rule=lambda m: m["n"] >= 2 and m["c2"] >= 2))
 
     def twin(**kw):
         ledger_bound("sum", 0, **kw)
